@@ -287,6 +287,11 @@ func c15Float(n c15Val) float64 {
 	case float64:
 		return n
 	case *big.Int:
+		if !n.IsInt64() {
+			// documented for inexact-num: integers of very large magnitude "may be
+			// converted to an infinite value"
+			c15Unmod("conversion of a very large exact integer to an inexact number")
+		}
 		f, _ := new(big.Float).SetInt(n).Float64()
 		return f
 	case *big.Rat:
